@@ -22,7 +22,7 @@ class ThrottleFuture(MapFuture):
         self.add_done_callback(self._clear_executor)
 
     def _me_cancel(self):
-        if self._delegate:
+        if self._delegate is not None:
             return self._delegate.cancel()
         executor = self._executor
         return executor and executor._do_cancel(self)
